@@ -18,6 +18,7 @@ import (
 
 	"verif/harness/evid"
 	"verif/harness/hx"
+	"verif/harness/memnet"
 	"verif/harness/ref"
 	"verif/harness/simbmc"
 	"verif/harness/udpnet"
@@ -102,7 +103,7 @@ func TestMetrics(t *testing.T) {
 		m := model{}
 		var conns []*connState
 		var hist []string
-		failures, retries, strays, doneCloses := 0, 0, 0, 0
+		failures, retries, strays, doneCloses, setupRetx := 0, 0, 0, 0, 0
 		creds := hx.Creds{User: "admin", Password: []byte("pw"), Priv: 4, Suite: ref.Suite{Auth: 1, Integ: 1, Conf: 1}}
 		defer func() {
 			for _, c := range conns {
@@ -250,13 +251,50 @@ func TestMetrics(t *testing.T) {
 						return def
 					}
 				}
+				// on in-memory connections the first replies to some of the session-setup
+				// payloads are lost or unreadable, so the payload is transmitted again:
+				// that is not a command retry and moves no command counter
+				lossy := 0
+				if !c.udp {
+					lossy = rapid.IntRange(0, 7).Draw(t, "setupRepliesLost")
+				}
+				if lossy != 0 {
+					inner := c.b.Intercept
+					dropped := map[uint8]int{}
+					c.b.Intercept = func(b *simbmc.BMC, rx *simbmc.Rx) {
+						if rx.Pkt != nil && rx.Pkt.SessionID == 0 {
+							for i, pt := range []uint8{ref.PTOpenReq, ref.PTRAKP1, ref.PTRAKP3} {
+								if rx.Pkt.PayloadType == pt && lossy&(1<<uint(i)) != 0 && dropped[pt] < 1+i%2 {
+									dropped[pt]++
+									if dropped[pt]%2 == 0 {
+										rx.Replies = []memnet.Out{{Data: []byte{0x06, 0x00, 0xff, 0x07, 0x06, 0x13, 0x01}}}
+									} else {
+										rx.Replies = nil
+									}
+									setupRetx++
+									return
+								}
+							}
+						}
+						if inner != nil {
+							inner(b, rx)
+						}
+					}
+				}
 				unlock()
 				ctx, cancel := context.WithTimeout(context.Background(), 5*time.Second)
+				if !c.udp {
+					cancel()
+					ctx, cancel = c.w.Ctx(40)
+				}
 				s, err := c.t.NewV2Session(ctx, opts)
 				cancel()
 				lock()
 				c.b.OpenOverride = nil
 				c.b.KG = nil
+				if lossy != 0 {
+					installScript(c, nil)
+				}
 				unlock()
 				m.add("bmc_session_open_attempts_total", "", 1)
 				if kind == "ok-discovery" || kind == "no-supported-suite" {
@@ -506,6 +544,9 @@ func TestMetrics(t *testing.T) {
 		if doneCloses > 0 {
 			ev.Label("history:close-with-done-context")
 		}
+		if setupRetx > 0 {
+			ev.Label("history:setup-payload-retransmitted")
+		}
 		ev.Sample(map[string]any{"history": hist, "failures": failures, "retries": retries})
 	})
 }
@@ -516,5 +557,5 @@ func installCaps(b *simbmc.BMC) {
 }
 
 func TestCoverage(t *testing.T) {
-	ev.RequireLabels(t, 1, "history:failure+retry", "history:with-udp", "history:stray-reply-not-counted", "history:close-with-done-context")
+	ev.RequireLabels(t, 1, "history:failure+retry", "history:with-udp", "history:stray-reply-not-counted", "history:close-with-done-context", "history:setup-payload-retransmitted")
 }
